@@ -8,6 +8,8 @@
 //   end
 #include "common.hpp"
 #include <cmath>
+#include <cstdint>
+#include <cstdlib>
 #include <list>
 #include <set>
 #include <unordered_set>
@@ -302,8 +304,26 @@ void do_approx(Ctx<W> &x, const std::string &variant, std::size_t k) {
 template<class W>
 void do_approx_dispatch(Ctx<W> &x, const CaseIn &c) { do_approx(x, c.args.at(2), std::stoul(c.args.at(3))); }
 
+// allocate and free blocks in the size classes of Boost's edge nodes so that the address order of the edge nodes
+// (= the order of std::set<edge_descriptor>) differs from the insertion order
+static std::vector<void*> perturb_heap(std::uint64_t seed, std::size_t m) {
+    auto mix = [](std::uint64_t z) { z = (z ^ (z >> 30)) * 0xBF58476D1CE4E5B9ull; z = (z ^ (z >> 27)) * 0x94D049BB133111EBull; return z ^ (z >> 31); };
+    std::vector<void*> keep, blocks;
+    std::uint64_t s = mix(seed * 1315423911ull + 7919ull);
+    for (std::size_t i = 0; i < 4 * m + 16; i++) blocks.push_back(std::malloc(24 + 8 * (i % 6)));
+    for (std::size_t i = blocks.size(); i > 1; i--) { s = mix(s + i); std::swap(blocks[i - 1], blocks[s % i]); }
+    for (std::size_t i = 0; i < blocks.size(); i++) { s = mix(s + 1); if (s % 4 != 0) std::free(blocks[i]); else keep.push_back(blocks[i]); }
+    return keep;
+}
+
 template<class W>
 void run_case(const CaseIn &c) {
+    std::vector<void*> keep;
+    for (auto &a : c.args) if (a.compare(0, 5, "heap=") == 0) {
+        std::size_t m = 0; for (auto &w : c.body) if (w[0] == "e") m++;
+        keep = perturb_heap(std::stoull(a.substr(5)), m);
+    }
+    struct Freer { std::vector<void*> &k; ~Freer() { for (void *p : k) std::free(p); } } freer{keep};
     Ctx<W> x;
     x.build(c);
     x.echo(c);
